@@ -35,6 +35,8 @@ EXTRA = {
     "C04": [(0.5, {"bad": 0.01, "leave": 0.02, "outcome_mix": True, "force_env": {"use_global_defender": True},
                    "attacker_max_steps": [6, 8, 10, 12], "roles": ["Attacker", "Attacker", "Defender"]})],
 }
+# properties whose checks also run the scripted "world-changing agent leaves, idle agent completes the reset" histories
+DIRECTED = {"C01", "C06", "C07", "C10"}
 NONTRIVIAL = {
     "C01": ("parked_total", "a request parked at a barrier (start / end / reset) at a quiescent point"),
     "C04": ("final_observations", "a final (end=True) observation delivered"),
@@ -74,6 +76,8 @@ def _worker(args):
         CC2.run_sessions(drv, rng, tables, lambda t, s_, d, r: fails.append((sorted(t), s_, d, r)), stats, n_sessions, n_events, profile)
         for share, prof in EXTRA.get(prop, []):
             CC2.run_sessions(drv, rng, tables, lambda t, s_, d, r: fails.append((sorted(t), s_, d, r)), stats, max(1, int(n_sessions * share)), n_events, prof)
+        if prop in DIRECTED:
+            CC2.directed_sessions(drv, rng, tables, lambda t, s_, d, r: fails.append((sorted(t), s_, d, r)), stats, max(4, n_sessions // 10))
     finally:
         drv.close()
     stats.pop("focus", None)
@@ -119,6 +123,8 @@ def main(prop, tier):
             CC.run_sessions(drv, rng, info["tables"]["defender"], on_fail, stats, n_sessions, n_events, PROFILES[prop])
             for share, prof in EXTRA.get(prop, []):
                 CC.run_sessions(drv, rng, info["tables"]["defender"], on_fail, stats, max(1, int(n_sessions * share)), n_events, prof)
+            if prop in DIRECTED:
+                CC.directed_sessions(drv, rng, info["tables"]["defender"], on_fail, stats, 16)
         finally:
             drv.close()
     bk = stats.get("by_kind", {})
@@ -136,7 +142,7 @@ def main(prop, tier):
            "rule": "random sessions of 1-4 connections (required players 1-4, role mixes, max_steps, reward tables, goals over all six view parts, defender on/off) against the real coordinator and the Lean model in lock-step; non-trivial = " + rule + " (counted per occurrence in distinct sessions/events)",
            "samples": stats.get("samples", [])[:2], "traces_validated_against_impl": stats.get("sessions", 0),
            "events_by_kind": bk, "parked_by_barrier": stats.get("parked", {}), "file_records_compared": stats.get("file_records", 0), "goal_check_cases": stats.get("goal_cases", 0), "goal_check_true": stats.get("goal_true", 0),
-           "sessions_full_scenario_random_start": stats.get("sessions_full_scenario_random_start", 0), "sessions_dynamic_addresses": stats.get("sessions_dynamic_addresses", 0), "bursts": stats.get("bursts", 0),
+           "sessions_full_scenario_random_start": stats.get("sessions_full_scenario_random_start", 0), "sessions_dynamic_addresses": stats.get("sessions_dynamic_addresses", 0), "directed_sessions": stats.get("directed_sessions", 0), "bursts": stats.get("bursts", 0),
            "out_of_scope_disagreements": other, "proof_failures": V.proof_failures}
     write_evidence(prop, tier, "proof", cov, T.s(), nviol,
                    ["one read = one client message (TCP coalescing not modelled)", "a peer address is reused only after its earlier connection is closed",
@@ -146,4 +152,5 @@ def main(prop, tier):
 
 
 if __name__ == "__main__":
-    sys.exit(main(sys.argv[1], sys.argv[2] if len(sys.argv) > 2 else "quick"))
+    from .common import guarded
+    sys.exit(guarded(sys.argv[1], sys.argv[2] if len(sys.argv) > 2 else "quick", lambda: main(sys.argv[1], sys.argv[2] if len(sys.argv) > 2 else "quick")))
